@@ -240,7 +240,8 @@ def fam_style_items(thorough=False):
   return Product([range(n), range(n), range(n), list(range(n)) if thorough else [0, 1, 4]])
 
 
-TOKENS = ["l1\rl2", "l1\r\rl2", "l1\r\n\r\nl2", "a&b", "a<b", "a>b", "x-->y", "<b>bold</b>", "&amp;", "a  b", " lead", "trail ", "t\tab", "l1\nl2", "{b}x{/b}", "-->", "&", "<", "1 < 2 & 3 > 2"]
+TOKENS = ["l1\rl2", "l1\r\rl2", "l1\r\n\r\nl2", "a&b", "a<b", "a>b", "x-->y", "<b>bold</b>", "&amp;", "a  b", " lead", "trail ", "t\tab", "l1\nl2", "{b}x{/b}", "-->", "&", "<", "1 < 2 & 3 > 2", "<i>", "</font>", "<b></b>",
+          "<font color=\"red\">"]
 
 
 def text_doc(tok, space, twice):
@@ -331,6 +332,24 @@ def align_doc(ta, direction, wm, da, n_p):
       p["st"] = st
     ps.append(p)
   return doc_spec(node("body", [node("div", ps, id="d1")], id="b"), [reg])
+
+
+# region geometry (origin y, height) with fractional percentages (their sum rounds differently from the sum of the roundings)
+# and regions that reach beyond the root container (a WebVTT percentage lies in 0..100)
+GEOMS = [(L(10.3, "%"), L(80.3, "%")), (L(10.25, "%"), L(80.5, "%")), (L(0.4, "%"), L(99.4, "%")), (L(33.4, "%"), L(33.3, "%")),
+         (L(50, "%"), L(80, "%")), (L(-20, "%"), L(50, "%")), (L(-30, "%"), L(20, "%"))]
+
+
+def geom_doc(gi, da):
+  y, h = GEOMS[gi]
+  spec = align_doc(None, None, None, da, 1)
+  spec["regions"][0]["st"]["Origin"] = ["org", L(10, "%"), y]
+  spec["regions"][0]["st"]["Extent"] = ["ext", h, L(80, "%")]
+  return spec
+
+
+def fam_geom_items():
+  return Product([list(range(len(GEOMS))), [None, "before", "center", "after"]])
 
 
 def fam_align_items():
